@@ -1,0 +1,58 @@
+//! Verification-only seams, compiled only with the cargo feature
+//! `verif_hooks` (off by default). With the feature on, the `Mutex` behind
+//! every `MutArc`, the flag of `CompleteStatus` and its blocking wait are the
+//! controlled ones of the `shuttle` runtime, so that a model checker can
+//! schedule threads at every shared-cell lock acquisition. Nothing in here is
+//! referenced when the feature is off.
+use std::sync::{LockResult, TryLockResult};
+
+pub use shuttle::future::block_on;
+pub use shuttle::sync::atomic::{AtomicBool, AtomicI8};
+pub use shuttle::sync::MutexGuard;
+
+/// `shuttle::sync::Mutex` with the rest of std's surface that `rc.rs` relies
+/// on (`From<T>`).
+#[derive(Debug, Default)]
+pub struct Mutex<T>(shuttle::sync::Mutex<T>);
+
+impl<T> Mutex<T> {
+  #[inline]
+  pub fn new(t: T) -> Self {
+    Self(shuttle::sync::Mutex::new(t))
+  }
+
+  #[inline]
+  pub fn lock(&self) -> LockResult<MutexGuard<'_, T>> {
+    self.0.lock()
+  }
+
+  #[inline]
+  pub fn try_lock(&self) -> TryLockResult<MutexGuard<'_, T>> {
+    self.0.try_lock()
+  }
+
+  #[inline]
+  pub fn get_mut(&mut self) -> LockResult<&mut T> {
+    self.0.get_mut()
+  }
+
+  #[inline]
+  pub fn into_inner(self) -> LockResult<T> {
+    self.0.into_inner()
+  }
+}
+
+impl<T> From<T> for Mutex<T> {
+  #[inline]
+  fn from(t: T) -> Self {
+    Self::new(t)
+  }
+}
+
+/// An ordinary scheduling point (a load on a throw-away controlled atomic):
+/// another thread may run here, charged like any other preemption.
+#[inline]
+pub fn sched_point() {
+  let a = shuttle::sync::atomic::AtomicBool::new(false);
+  let _ = a.load(std::sync::atomic::Ordering::SeqCst);
+}
